@@ -69,6 +69,64 @@ def extra(ctx, rep):
                                     "default (an unseeded / fresh generator), so a seeded device no longer reproduces its results on this path")
     rep.floor("seed-threading call sites in the simulation path", n_calls, 20)
 
+    # ---- seeds carried in a **kwargs bag ------------------------------------------------------------------------------------
+    rep.rule("R-C31-bag", "a simulation-path function g that reads `rng` / `prng_key` out of its own **kwargs bag (bag.get('rng'), bag['rng']) gets "
+             "that key at every resolved call site inside a function that itself holds it (as a parameter or in its own **bag that it forwards "
+             "elsewhere): the call forwards a **bag or passes the key explicitly")
+    bag_readers = {}  # id(FuncInfo.node) -> (FuncInfo, bag name, keys read)
+    for mod in ix.modules.values():
+        if not mod.relpath.startswith(SIM_PATH_PREFIXES):
+            continue
+        for g in ix.funcs_in(mod):
+            if g.node.args.kwarg is None or g.cls is not None:
+                continue
+            bag = g.node.args.kwarg.arg
+            keys = set()
+            for n in walk_shallow(g.node):
+                if isinstance(n, ast.Call) and isinstance(n.func, ast.Attribute) and n.func.attr in ("get", "pop") and isinstance(n.func.value, ast.Name) \
+                        and n.func.value.id == bag and n.args and isinstance(n.args[0], ast.Constant) and n.args[0].value in THREADED:
+                    keys.add(n.args[0].value)
+                if isinstance(n, ast.Subscript) and isinstance(n.value, ast.Name) and n.value.id == bag and isinstance(n.slice, ast.Constant) \
+                        and n.slice.value in THREADED:
+                    keys.add(n.slice.value)
+            if keys:
+                bag_readers[id(g.node)] = (g, bag, keys)
+    n_bag = 0
+    for mod in ix.modules.values():
+        if not mod.relpath.startswith(SIM_PATH_PREFIXES):
+            continue
+        for f in ix.funcs_in(mod):
+            pos, kwo, _ = _params(f)
+            fbag = f.node.args.kwarg.arg if f.node.args.kwarg is not None else None
+            for c in walk_shallow(f.node):
+                if not isinstance(c, ast.Call) or not isinstance(c.func, (ast.Name, ast.Attribute)):
+                    continue
+                try:
+                    g = ix.resolve_expr(mod, c.func)
+                except RecursionError:
+                    g = None
+                if not isinstance(g, FuncInfo) or id(g.node) not in bag_readers:
+                    continue
+                _, gbag, keys = bag_readers[id(g.node)]
+                for k in sorted(keys):
+                    # does the caller hold the key?  explicit parameter, or its own bag (which it forwards / reads elsewhere)
+                    holds = k in pos or k in kwo or fbag is not None
+                    if not holds:
+                        continue
+                    n_bag += 1
+                    splat = any(kw.arg is None for kw in c.keywords)
+                    explicit = any(kw.arg == k for kw in c.keywords)
+                    where = f"{mod.relpath}:{f.qualname} L{c.lineno} -> {g.name}(**{gbag}[{k!r}])"
+                    if splat or explicit:
+                        rep.proved("R-C31-bag", where, "bag forwarded" if splat else f"`{k}` passed explicitly")
+                    elif k == "prng_key" and any(kw.arg == "rng" for kw in c.keywords):
+                        rep.unknown("R-C31-bag", where, "the numpy generator is passed; whether a JAX key is needed here is not decided")
+                    else:
+                        rep.refuted("R-C31-bag", mod.relpath, f.qualname, c,
+                                    f"`{g.name}` reads `{k}` from its **{gbag}, but this call neither forwards a **kwargs bag nor passes `{k}=`: the callee "
+                                    "falls back to an unseeded generator (global numpy state), so equally seeded devices diverge on this path")
+    rep.floor("call sites of functions that read a seed from their **kwargs", n_bag, 2)
+
     # executor order (shared with C65)
     from . import c65
 
@@ -79,3 +137,77 @@ def extra(ctx, rep):
     for fnd in sub.findings:
         if fnd.rule == "R-C65-order":
             rep.refuted("R-C31-order", fnd.module, fnd.construct, fnd.statement, fnd.message + " (native executor used by the devices' parallel dispatch)", line=fnd.line)
+
+
+def perm(ctx, rep):
+    """R-C31-perm: a batch that is re-ordered for dispatch is restored with the inverse permutation."""
+    ix = ctx.index
+    rep.rule("R-C31-perm", "in the devices' execute paths and the executors: when the inputs of a dispatch call are gathered through an index list "
+             "(`[xs[i] for i in order]`), the results are not gathered through the *same* index list again (that applies the permutation twice; "
+             "restoring needs the inverse: a scatter `out[order[j]] = res[j]` or a gather by argsort(order)); re-ordering whose restoration is not "
+             "recognised is left undecided")
+    PREF = ("pennylane/devices/", "pennylane/concurrency/")
+    n_fn = n_sites = 0
+
+    def gathers(fn):
+        """(base name, index-list name, node) for every `[base[i] for i in idx]` / tuple(... ) / generator"""
+        out = []
+        for n in ast.walk(fn):
+            if isinstance(n, (ast.ListComp, ast.GeneratorExp)) and len(n.generators) == 1:
+                g = n.generators[0]
+                if isinstance(g.iter, ast.Name) and isinstance(g.target, ast.Name) and isinstance(n.elt, ast.Subscript) \
+                        and isinstance(n.elt.value, ast.Name) and isinstance(n.elt.slice, ast.Name) and n.elt.slice.id == g.target.id and not g.ifs:
+                    out.append((n.elt.value.id, g.iter.id, n))
+        return out
+
+    for mod in ix.modules.values():
+        if not mod.relpath.startswith(PREF):
+            continue
+        for f in ix.funcs_in(mod):
+            gs = gathers(f.node)
+            if not gs:
+                continue
+            n_fn += 1
+            # names assigned from call results (dispatch outputs) and the names of gathered inputs
+            assigned_from_gather = {}
+            for st in walk_shallow(f.node):
+                if isinstance(st, ast.Assign) and len(st.targets) == 1 and isinstance(st.targets[0], ast.Name):
+                    for base, idx, node in gs:
+                        if any(x is node for x in ast.walk(st.value)):
+                            assigned_from_gather[st.targets[0].id] = idx
+            # everything computed from a gathered input (the dispatch call, tuple(...) of its iterator, …) carries the index list
+            call_results = {}
+            changed = True
+            while changed:
+                changed = False
+                for st in walk_shallow(f.node):
+                    if isinstance(st, ast.Assign) and len(st.targets) == 1 and isinstance(st.targets[0], ast.Name) and isinstance(st.value, ast.Call):
+                        tgt = st.targets[0].id
+                        if tgt in call_results:
+                            continue
+                        used = {x.id for x in ast.walk(st.value) if isinstance(x, ast.Name)}
+                        for nm, idx in list(assigned_from_gather.items()) + list(call_results.items()):
+                            if nm in used and not any(x is g_[2] for g_ in gs for x in ast.walk(st.value)):
+                                call_results[tgt] = idx
+                                changed = True
+                                break
+            by_idx = {}
+            for base, idx, node in gs:
+                by_idx.setdefault(idx, []).append((base, node))
+            for idx, lst in by_idx.items():
+                for base, node in lst:
+                    if call_results.get(base) == idx:
+                        n_sites += 1
+                        rep.analysed(mod.relpath, f.qualname)
+                        rep.refuted("R-C31-perm", mod.relpath, f.qualname, node,
+                                    f"the inputs of the dispatch were re-ordered with `{idx}` and its results `{base}` are gathered with `{idx}` again: "
+                                    "that applies the permutation twice instead of undoing it, so for any order that is not its own inverse results are "
+                                    "returned against the wrong circuits of the batch", line=node.lineno)
+            dispatches = any(isinstance(x, ast.Call) and isinstance(x.func, ast.Attribute) and x.func.attr in ("map", "starmap", "submit")
+                             for x in ast.walk(f.node))
+            if assigned_from_gather and dispatches and not any(call_results.get(b) == i for b, i, _ in gs):
+                n_sites += 1
+                rep.unknown("R-C31-perm", f"{mod.relpath}:{f.qualname}", "inputs are re-ordered through an index list; restoration not recognised")
+    if not n_sites:
+        rep.proved("R-C31-perm", "devices and executors", f"no dispatch input is re-ordered through an index list ({n_fn} functions with index gathers looked at)",
+                   nontrivial=False)
